@@ -4,14 +4,13 @@
 //@rtrace src/engine/core/filter/condition_evaluator_builder.rs
 //@needs pub fn add_where_clause(&mut self, where_clause: &Expr) {
 //@function src/engine/core/filter/condition_evaluator_builder.rs::add_where_clause
-//@harness name=dbg_a tier=quick stubs=yes
-//@harness name=dbg_b tier=quick stubs=yes
-//@harness name=dbg_c tier=quick stubs=yes
-//@harness name=where_leaf kind=complete tier=quick timeout=900 stubs=yes
-//@harness name=where_and_or_not_of_leaves kind=complete tier=quick timeout=1200 stubs=yes
-//@harness name=where_nested_and_under_or_not kind=complete tier=quick timeout=1800 stubs=yes
-//@harness name=where_nested_or_under_and_not kind=complete tier=quick timeout=1800 stubs=yes
+//@harness name=where_leaf kind=complete tier=thorough timeout=3600 stubs=yes gate=yes
+//@harness name=where_and_or_not_of_leaves kind=complete tier=thorough timeout=3600 stubs=yes gate=yes
+//@harness name=where_nested_and_under_or_not kind=complete tier=thorough timeout=3600 stubs=yes gate=yes
+//@harness name=where_nested_or_under_and_not kind=complete tier=thorough timeout=3600 stubs=yes gate=yes
 //@obligation C02.builder.literal_is_scalar : the literal of a comparison is never cloned as an array or object
+//@obligation C02.builder.number_literal_not_parsed_as_time : a numeric literal is never sent through the temporal string parser
+//@obligation C02.builder.number_literal_builds_numeric_condition : a comparison with an integer literal never yields a string or IN condition
 //@obligation C02.builder.add_where_clause.leaf : WHERE `x op literal` (integer literal) selects exactly the rows whose cell satisfies the comparison
 //@obligation C02.builder.add_where_clause.connectives : AND / OR / NOT over comparisons select exactly the rows satisfying the boolean combination
 //@obligation C02.builder.add_where_clause.nested_and : (a AND b) OR c, NOT (a AND b) keep their grouping
@@ -31,6 +30,30 @@
         }
         assert!(false, "OBL-UNREACHABLE:C02.builder.literal_is_scalar");
         loop {}
+    }
+
+    fn fixed_random_state() -> std::hash::RandomState {
+        // harness-only: fixed hasher keys, so that ConditionEvaluator::new() (an empty HashSet) costs CBMC nothing
+        unsafe { std::mem::transmute::<(u64, u64), std::hash::RandomState>((0x0123_4567_89ab_cdef, 0x0fed_cba9_8765_4321)) }
+    }
+
+    fn no_time_parse(_s: &str, _k: TimeKind) -> Option<i64> {
+        // number literals never reach the temporal string parser (chrono); if CBMC cannot rule the call out
+        // syntactically it at least finds a trivial body here
+        assert!(false, "OBL-UNREACHABLE:C02.builder.number_literal_not_parsed_as_time");
+        None
+    }
+
+    // number literals never produce string / IN conditions; with these three adders reduced to an unreachability
+    // obligation the only concrete types CBMC sees behind `dyn Condition` are NumericCondition and LogicalCondition
+    fn no_string_condition(_ev: &mut ConditionEvaluator, _f: String, _o: crate::engine::core::filter::condition::CompareOp, _v: String) {
+        assert!(false, "OBL-UNREACHABLE:C02.builder.number_literal_builds_numeric_condition");
+    }
+    fn no_in_numeric(_ev: &mut ConditionEvaluator, _f: String, _v: Vec<i64>) {
+        assert!(false, "OBL-UNREACHABLE:C02.builder.number_literal_builds_numeric_condition");
+    }
+    fn no_in_string(_ev: &mut ConditionEvaluator, _f: String, _v: Vec<String>) {
+        assert!(false, "OBL-UNREACHABLE:C02.builder.number_literal_builds_numeric_condition");
     }
 
     struct I64Cell(i64);
@@ -55,9 +78,10 @@
     }
     /// the row-level answer of the evaluator built from `e`: all top-level conditions must hold (as evaluate_event /
     /// evaluate_zones do)
-    fn selected(e: &Expr, cell: i64) -> bool {
+    fn selected(e: Expr, cell: i64) -> bool {
         let mut b = ConditionEvaluatorBuilder::new();
-        b.add_where_clause(e);
+        b.add_where_clause(&e);
+        std::mem::forget(e); // Expr's drop glue is recursive; a plain local keeps its variant concrete for CBMC
         let conds = std::mem::ManuallyDrop::new(b.into_evaluator().into_conditions());
         let acc = I64Cell(cell);
         let mut all = true;
@@ -69,101 +93,85 @@
 
     #[kani::proof]
     #[kani::stub(<serde_json::Value as std::clone::Clone>::clone, clone_scalar_json)]
+    #[kani::stub(TimeParser::parse_str_to_epoch_seconds, no_time_parse)]
+    #[kani::stub(std::hash::RandomState::new, fixed_random_state)]
     #[kani::stub(ConditionEvaluator::add_numeric_condition, add_numeric_no_bookkeeping)]
     #[kani::stub(ConditionEvaluator::add_logical_condition, add_logical_no_bookkeeping)]
+    #[kani::stub(ConditionEvaluator::add_string_condition, no_string_condition)]
+    #[kani::stub(ConditionEvaluator::add_in_numeric_condition, no_in_numeric)]
+    #[kani::stub(ConditionEvaluator::add_in_string_condition, no_in_string)]
     #[kani::unwind(6)]
     fn where_leaf() {
         let (op, k) = any_cmp();
         let (v, cell): (i64, i64) = (kani::any(), kani::any());
-        let e = std::mem::ManuallyDrop::new(leaf(op, v));
+        let e = leaf(op, v);
         kani::cover!(math(k, cell, v), "COVER:selected");
-        assert!(selected(&e, cell) == math(k, cell, v), "OBL:C02.builder.add_where_clause.leaf");
+        assert!(selected(e, cell) == math(k, cell, v), "OBL:C02.builder.add_where_clause.leaf");
     }
 
     #[kani::proof]
     #[kani::stub(<serde_json::Value as std::clone::Clone>::clone, clone_scalar_json)]
+    #[kani::stub(TimeParser::parse_str_to_epoch_seconds, no_time_parse)]
+    #[kani::stub(std::hash::RandomState::new, fixed_random_state)]
     #[kani::stub(ConditionEvaluator::add_numeric_condition, add_numeric_no_bookkeeping)]
     #[kani::stub(ConditionEvaluator::add_logical_condition, add_logical_no_bookkeeping)]
+    #[kani::stub(ConditionEvaluator::add_string_condition, no_string_condition)]
+    #[kani::stub(ConditionEvaluator::add_in_numeric_condition, no_in_numeric)]
+    #[kani::stub(ConditionEvaluator::add_in_string_condition, no_in_string)]
     #[kani::unwind(6)]
     fn where_and_or_not_of_leaves() {
         let ((o1, k1), (o2, k2)) = (any_cmp(), any_cmp());
         let (v1, v2, cell): (i64, i64, i64) = (kani::any(), kani::any(), kani::any());
         let (a, b) = (math(k1, cell, v1), math(k2, cell, v2));
-        let and = std::mem::ManuallyDrop::new(Expr::And(Box::new(leaf(o1.clone(), v1)), Box::new(leaf(o2.clone(), v2))));
-        let or = std::mem::ManuallyDrop::new(Expr::Or(Box::new(leaf(o1.clone(), v1)), Box::new(leaf(o2.clone(), v2))));
-        let not = std::mem::ManuallyDrop::new(Expr::Not(Box::new(leaf(o1, v1))));
+        let and = Expr::And(Box::new(leaf(o1.clone(), v1)), Box::new(leaf(o2.clone(), v2)));
+        let or = Expr::Or(Box::new(leaf(o1.clone(), v1)), Box::new(leaf(o2.clone(), v2)));
+        let not = Expr::Not(Box::new(leaf(o1, v1)));
         kani::cover!(a && !b, "COVER:mixed");
-        assert!(selected(&and, cell) == (a && b) && selected(&or, cell) == (a || b) && selected(&not, cell) == !a,
+        assert!(selected(and, cell) == (a && b) && selected(or, cell) == (a || b) && selected(not, cell) == !a,
             "OBL:C02.builder.add_where_clause.connectives");
     }
 
     #[kani::proof]
     #[kani::stub(<serde_json::Value as std::clone::Clone>::clone, clone_scalar_json)]
+    #[kani::stub(TimeParser::parse_str_to_epoch_seconds, no_time_parse)]
+    #[kani::stub(std::hash::RandomState::new, fixed_random_state)]
     #[kani::stub(ConditionEvaluator::add_numeric_condition, add_numeric_no_bookkeeping)]
     #[kani::stub(ConditionEvaluator::add_logical_condition, add_logical_no_bookkeeping)]
+    #[kani::stub(ConditionEvaluator::add_string_condition, no_string_condition)]
+    #[kani::stub(ConditionEvaluator::add_in_numeric_condition, no_in_numeric)]
+    #[kani::stub(ConditionEvaluator::add_in_string_condition, no_in_string)]
     #[kani::unwind(6)]
     fn where_nested_and_under_or_not() {
         let ((o1, k1), (o2, k2), (o3, k3)) = (any_cmp(), any_cmp(), any_cmp());
         let (v1, v2, v3, cell): (i64, i64, i64, i64) = (kani::any(), kani::any(), kani::any(), kani::any());
         let (a, b, c) = (math(k1, cell, v1), math(k2, cell, v2), math(k3, cell, v3));
-        let and_or = std::mem::ManuallyDrop::new(Expr::Or(
-            Box::new(Expr::And(Box::new(leaf(o1.clone(), v1)), Box::new(leaf(o2.clone(), v2)))), Box::new(leaf(o3, v3))));
-        let not_and = std::mem::ManuallyDrop::new(Expr::Not(Box::new(Expr::And(Box::new(leaf(o1, v1)), Box::new(leaf(o2, v2))))));
+        let and_or = Expr::Or(
+            Box::new(Expr::And(Box::new(leaf(o1.clone(), v1)), Box::new(leaf(o2.clone(), v2)))), Box::new(leaf(o3, v3)));
+        let not_and = Expr::Not(Box::new(Expr::And(Box::new(leaf(o1, v1)), Box::new(leaf(o2, v2)))));
         kani::cover!(a && !b && !c, "COVER:distinguishing_row");
-        assert!(selected(&and_or, cell) == ((a && b) || c) && selected(&not_and, cell) == !(a && b),
+        assert!(selected(and_or, cell) == ((a && b) || c) && selected(not_and, cell) == !(a && b),
             "OBL:C02.builder.add_where_clause.nested_and");
     }
 
     #[kani::proof]
     #[kani::stub(<serde_json::Value as std::clone::Clone>::clone, clone_scalar_json)]
+    #[kani::stub(TimeParser::parse_str_to_epoch_seconds, no_time_parse)]
+    #[kani::stub(std::hash::RandomState::new, fixed_random_state)]
     #[kani::stub(ConditionEvaluator::add_numeric_condition, add_numeric_no_bookkeeping)]
     #[kani::stub(ConditionEvaluator::add_logical_condition, add_logical_no_bookkeeping)]
+    #[kani::stub(ConditionEvaluator::add_string_condition, no_string_condition)]
+    #[kani::stub(ConditionEvaluator::add_in_numeric_condition, no_in_numeric)]
+    #[kani::stub(ConditionEvaluator::add_in_string_condition, no_in_string)]
     #[kani::unwind(6)]
     fn where_nested_or_under_and_not() {
         let ((o1, k1), (o2, k2), (o3, k3)) = (any_cmp(), any_cmp(), any_cmp());
         let (v1, v2, v3, cell): (i64, i64, i64, i64) = (kani::any(), kani::any(), kani::any(), kani::any());
         let (a, b, c) = (math(k1, cell, v1), math(k2, cell, v2), math(k3, cell, v3));
-        let or_and = std::mem::ManuallyDrop::new(Expr::And(
-            Box::new(Expr::Or(Box::new(leaf(o1.clone(), v1)), Box::new(leaf(o2.clone(), v2)))), Box::new(leaf(o3, v3))));
-        let not_or = std::mem::ManuallyDrop::new(Expr::Not(Box::new(Expr::Or(Box::new(leaf(o1, v1)), Box::new(leaf(o2, v2))))));
+        let or_and = Expr::And(
+            Box::new(Expr::Or(Box::new(leaf(o1.clone(), v1)), Box::new(leaf(o2.clone(), v2)))), Box::new(leaf(o3, v3)));
+        let not_or = Expr::Not(Box::new(Expr::Or(Box::new(leaf(o1, v1)), Box::new(leaf(o2, v2)))));
         kani::cover!(!a && b && c, "COVER:distinguishing_row");
-        assert!(selected(&or_and, cell) == ((a || b) && c) && selected(&not_or, cell) == !(a || b),
+        assert!(selected(or_and, cell) == ((a || b) && c) && selected(not_or, cell) == !(a || b),
             "OBL:C02.builder.add_where_clause.nested_or");
     }
 
-    #[kani::proof]
-    #[kani::stub(<serde_json::Value as std::clone::Clone>::clone, clone_scalar_json)]
-    #[kani::unwind(6)]
-    fn dbg_a() {
-        let v: i64 = kani::any();
-        let j = std::mem::ManuallyDrop::new(serde_json::Value::Number(serde_json::Number::from(v)));
-        let sv = ScalarValue::from((*j).clone());
-        assert!(sv.as_i64() == Some(v), "OBL:dbg_a");
-    }
-    #[kani::proof]
-    #[kani::stub(<serde_json::Value as std::clone::Clone>::clone, clone_scalar_json)]
-    #[kani::stub(ConditionEvaluator::add_numeric_condition, add_numeric_no_bookkeeping)]
-    #[kani::stub(ConditionEvaluator::add_logical_condition, add_logical_no_bookkeeping)]
-    #[kani::unwind(6)]
-    fn dbg_b() {
-        let (op, _k) = any_cmp();
-        let v: i64 = kani::any();
-        let e = std::mem::ManuallyDrop::new(leaf(op, v));
-        let mut b = ConditionEvaluatorBuilder::new();
-        b.add_where_clause(&e);
-        let conds = std::mem::ManuallyDrop::new(b.into_evaluator().into_conditions());
-        assert!(conds.len() == 1, "OBL:dbg_b");
-    }
-    #[kani::proof]
-    #[kani::unwind(6)]
-    fn dbg_c() {
-        let (op, k) = any_cmp();
-        let (v, cell): (i64, i64) = (kani::any(), kani::any());
-        let mut ev = ConditionEvaluator::new();
-        add_numeric_no_bookkeeping(&mut ev, String::from("x"), op.into(), v);
-        let conds = std::mem::ManuallyDrop::new(ev.into_conditions());
-        let acc = I64Cell(cell);
-        let mut all = true;
-        for c in conds.iter() { all = all && c.evaluate_at(&acc, 0); }
-        assert!(all == math(k, cell, v), "OBL:dbg_c");
-    }
